@@ -231,8 +231,11 @@ int fiber_io_unlock_thread() {
 
 static inline int should_block(int fd) {
   assert(fd >= 0);
-  if (!thread_locked && fd_info && fd < max_fd &&
-      fd_info[fd].flags_ & (IO_FLAG_BLOCKING | IO_FLAG_WAITABLE)) {
+  // suspend the fiber only for descriptors we manage that the application
+  // left in (or put back into) blocking mode
+  if (!thread_locked && fd_info && fd >= 0 && fd < max_fd &&
+      (fd_info[fd].flags_ & (IO_FLAG_BLOCKING | IO_FLAG_WAITABLE)) ==
+          (IO_FLAG_BLOCKING | IO_FLAG_WAITABLE)) {
     return 1;
   }
   return 0;
@@ -625,15 +628,17 @@ int fcntl(int fd, int cmd, ...) {
   long val = va_arg(args, long);
   va_end(args);
 
-  if (!thread_locked) {
-    if (cmd == F_SETFL && (val == O_NONBLOCK || val == O_NDELAY)) {
-      assert(fd < max_fd);
-      atomic_fetch_and(&fd_info[fd].flags_, ~IO_FLAG_BLOCKING);
-      assert(!(fd_info[fd].flags_ & IO_FLAG_BLOCKING));
-      return 0;
-    }
-    // make sure O_NONBLOCK stays set
-    if (cmd == F_SETFL) {
+  if (!thread_locked && cmd == F_SETFL) {
+    // remember which mode the application asked for (also when O_NONBLOCK is
+    // or-ed into other status flags, or cleared again); the descriptor itself
+    // always stays non-blocking
+    if (fd_info && fd >= 0 && fd < max_fd &&
+        (fd_info[fd].flags_ & IO_FLAG_WAITABLE)) {
+      if (val & O_NONBLOCK) {
+        atomic_fetch_and(&fd_info[fd].flags_, ~IO_FLAG_BLOCKING);
+      } else {
+        atomic_fetch_or(&fd_info[fd].flags_, IO_FLAG_BLOCKING);
+      }
       val |= O_NONBLOCK;
     }
   }
